@@ -495,6 +495,17 @@ def report(pid, pc, tier, seed, results, extra_results, wall):
     verified_items = 0
     cmds = []
     spec_hashes = {}
+    # supporting obligations: clauses written for another property that this property's mechanism rests on (e.g. the
+    # rollback of a failed sub-message for the bank's "fails and changes nothing"); listed per property in
+    # vx/properties.json under "also" as regular expressions over clause ids
+    also = [re.compile(p) for p in pc.get("also", [])]
+    for r in results:
+        if "g" not in r:
+            continue
+        for cid, c in r["g"].clauses.items():
+            if pid not in c["props"] and any(p.match(cid) for p in also):
+                c["props"] = list(c["props"]) + [pid]
+                c["supporting"] = True
     for r in results:
         if "g" not in r:
             continue
@@ -654,6 +665,7 @@ def report(pid, pc, tier, seed, results, extra_results, wall):
             "explanation": pc.get("explanation", ""),
             "backend": "verus 0.2026.09.13 / z3" + (" + kani 0.68 / cbmc" if any(e.get("name") in ("contract_wrapper", "encode_length") for e in extra_results) else "") + (" + cargo test (prelude cross-check, a differential test)" if any(e.get("name") == "prelude_crosscheck" for e in extra_results) else ""),
             "labelled_clauses": len(my_clauses),
+            "supporting_clauses_of_other_properties": sorted(cid for cid, c in my_clauses.items() if c.get("supporting")),
             "verus_verified_items": verified_items,
             "functions_under_contract": functions,
             "per_function_smt": sorted(per_fn_time, key=lambda x: -x["smt_s"])[:40],
